@@ -24,7 +24,7 @@ theorem set_same {h : Heap} {c p : Nat} : set h c p c = p := by
 /-- a mutation of a cell that is not reachable from `t` is invisible through `t`. -/
 theorem read_set_of_not_mem {h : Heap} {t : Tree} {c p : Nat} (hc : c ∉ t.cells) :
     read (set h c p) t = read h t :=
-  read_congr (fun x hx => set_other (fun e => hc (e ▸ hx)))
+  read_congr (fun _ hx => set_other (fun e => hc (e ▸ hx)))
 
 theorem read_setAll_of_disjoint {h : Heap} {t : Tree} {cs : List Cell} {p : Nat}
     (hd : ∀ c : Nat, c ∈ t.cells → c ∉ cs) : read (setAll h cs p) t = read h t :=
@@ -329,5 +329,20 @@ theorem observe_step (tbl : Port → Mode) {s : State} (op : Op) (hi : Inv s)
 theorem run_append (tbl : Port → Mode) (s : State) (a b : List Op) :
     run tbl s (a ++ b) = run tbl (run tbl s a) b := by
   simp [run, List.foldl_append]
+
+theorem modeOf_clone_of_all {tbl : List (String × String × Mode)}
+    (hall : tbl.all (fun r => r.2.2 == .clone) = true) {p : Port}
+    (hp : (tbl.any (fun r => portName r.1 r.2.1 == p)) = true) : modeOf tbl p = .clone := by
+  unfold modeOf
+  cases hf : tbl.find? (fun r => portName r.1 r.2.1 == p) with
+  | none =>
+    rw [List.find?_eq_none] at hf
+    rw [List.any_eq_true] at hp
+    obtain ⟨r, hr, hrp⟩ := hp
+    exact absurd hrp (hf r hr)
+  | some r =>
+    have hm := List.mem_of_find?_eq_some hf
+    rw [List.all_eq_true] at hall
+    simpa using hall r hm
 
 end CharonV.Heap
